@@ -218,6 +218,20 @@ def check_branches(chk, it, tabs):
                'br_table [2,0,1] default 1 inside three nested blocks must dispatch case 0->L1, 1->L3, 2->L2, default->L2 on the top slot; '
                'emitted %r / default %r (%r)' % (cases, dflt, text), 'wasmCWriteBranchTableExpr')
 
+    # br_table carrying a value: the selector is popped before the carried value is located, for every table size including
+    # the empty table (default only)
+    for labels in ([], [0], [0, 0], [0, 0, 0]):
+        toks = script(('block', {'imm0': V['i32']}), const('i64', 1), const('i32', 7), const('i32', 0), ('br_table', {'labels': labels, 'default': 0}), 'end')
+        t = one(chk, run_script(it, toks, ['i64']), 'br_table-value[%d]' % len(labels))
+        text = t.text()
+        flat = re.sub(r'\s+', '', text)
+        carries = re.findall(r's%s1=s%s(\d)' % (L['i32'], L['i32']), flat)
+        gotos = len(re.findall(r'gotoL1;', flat))
+        chk.expect(carries and set(carries) == {'2'} and gotos == len(carries) and gotos >= 1, 'R03.4', 'br_table-carries-value[%d labels]' % len(labels),
+                   'br_table with %d table entries to a block with an i32 result, with the selector in s%s3, the value in s%s2 and another operand below: every '
+                   'branch must copy s%s2 (not the selector) into the result slot s%s1; emitted %r' % (len(labels), L['i32'], L['i32'], L['i32'], L['i32'], text),
+                   'wasmCWriteBranchTableExpr:value')
+
 
 def check_ignore_equivalence(chk, it):
     """every instruction: ignore mode emits nothing, keeps the stack, consumes the same immediates"""
